@@ -75,6 +75,8 @@ def cells(tier, seed):
     # several future steps per dynamic channel (channel bookkeeping c = size // future_steps in from1d); past == future: round trip
     for past, fut, const, order in [(2, 2, "none", 0), (2, 2, "none", 1), (1, 2, "scalar", 1), (2, 3, "both", 0)]:
         out.append({"w": "climate", "dims": (3, 2), "past": past, "future": fut, "const": const, "order": order})
+    out.append({"w": "climate", "dims": (3, 2), "past": 2, "future": 2, "const": "none", "order": 1, "cscalar": 3})
+    out.append({"w": "climate", "dims": (3, 2), "past": 1, "future": 3, "const": "scalar", "order": 0, "cscalar": 2})
     if tier == "thorough":
         out.append({"w": "climate", "dims": (4, 3), "past": 2, "future": 2, "const": "none", "order": 1})
         out.append({"w": "climate", "dims": (4, 3), "past": 3, "future": 2, "const": "both", "order": 0})
@@ -195,7 +197,8 @@ def _climate(cfg, cx):
     D = 2
     n_lons, n_lats = cfg["dims"]
     past = cfg["past"]
-    dyn = [((0, 0), 1), ((1, 0), 1)] if cfg["order"] == 0 else [((1, 0), 1), ((0, 0), 1)]
+    cs = cfg.get("cscalar", 1)   # number of dynamic scalar fields (channel bookkeeping c = size // future_steps)
+    dyn = [((0, 0), cs), ((1, 0), 1)] if cfg["order"] == 0 else [((1, 0), 1), ((0, 0), cs)]
     if n_lons == 4:
         dyn = dyn + [((0, 1), 1)] if cfg["order"] == 0 else [((0, 1), 1)] + dyn
     const = {"none": {}, "scalar": {(0, 0): 1}, "both": {(0, 0): 1, (0, 1): 2}}[cfg["const"]]
@@ -205,7 +208,7 @@ def _climate(cfg, cx):
     sig1d = models.Climate1D.get_1d_signature(geom.Signature(out_keys), n_lats)
     inner = stubs.make_uf_model("c", [(tuple(q), c) for q, c in sig1d])
     cl = models.Climate1D(inner, geom.Signature(out_keys), past, fut, (n_lons, n_lats), dict(const), flags)
-    ckey = f"dims={cfg['dims']}:past={past}:const={cfg['const']}:order={cfg['order']}" + (f":future={fut}" if fut != 1 else "")
+    ckey = f"dims={cfg['dims']}:past={past}:const={cfg['const']}:order={cfg['order']}" + (f":future={fut}" if fut != 1 else "") + (f":cscalar={cs}" if cs != 1 else "")
     # input: per type dynamic channels*past (+ constants appended on the channel axis)
     types = [q for q, _ in dyn] + [q for q in const if q not in dict(dyn)]
     chans = {q: dict(dyn).get(q, 0) * past + const.get(q, 0) for q in types}
